@@ -243,6 +243,7 @@ pub fn run(p: &Params, rep: &mut Report) {
         }
     }
     for_max_loop_programs(p, rep, p.size(20, 200), |prog, seed, rep| check_program(prog, seed, p.thorough, rep));
+    for_firstchar_programs(p, rep, p.size(25, 250), |prog, seed, rep| check_program(prog, seed, p.thorough, rep));
     {
         // loops over a word followed by an overlapping word: (ab)*bc and the like, all subjects up to 4 (5) letters
         let mut rng = p.rng(0x4C57);
